@@ -77,13 +77,12 @@ Fixpoint no_partial (acc : list ghdr) (ops : list op) : Prop :=
 Section Spec.
   Variable obs : Type.
   Variable sem : view -> obs.
-  Variable ord : list ghdr -> list ghdr.
   Variable fx : fixes.
 
   (* a fresh set loaded with exactly the accepted items, and the batch run on it *)
   Definition fresh (acc : list ghdr) : state obs :=
-    fst (run sem ord fx NewState (map (fun g => Load (Items [Good g])) acc)).
-  Definition batch (acc : list ghdr) : obs := snd (Process sem ord fx (fresh acc)).
+    fst (run sem fx NewState (map (fun g => Load (Items [Good g])) acc)).
+  Definition batch (acc : list ghdr) : obs := snd (Process sem fx (fresh acc)).
 
   Record astate := { a_acc : list ghdr; a_snap : option (list ghdr) }.
   Definition a_init : astate := {| a_acc := []; a_snap := None |}.
